@@ -315,8 +315,9 @@ func hC06Route() {
 		case 0:
 			raw = append(raw, nondetBytes("seg", 1)...)
 		case 1:
-			esc := nondetBytes("esc", 2) // an escape triple %XX with symbolic hex digits
+			esc := nondetBytes("esc", 2) // an escape triple %XX with symbolic hex digits, optionally followed by hex-looking text
 			raw = append(raw, '%', esc[0], esc[1])
+			raw = append(raw, []string{"", "2F"}[verifChoose("escSuffix", 2)]...)
 		default:
 			if verifTier() == 1 {
 				raw = append(raw, lits[verifChoose("lit", len(lits))]...)
